@@ -88,4 +88,17 @@ MUTANTS = [
  dict(name='target-back-bind-cref', prop='C04', rule='C04.target', edits=[(B, '''                pf, this, evt,
                 static_cast<EventSource>(EVENT_SOURCE_MSG_QUEUE)));''', '''                pf, this, ::boost::cref(evt),
                 static_cast<EventSource>(EVENT_SOURCE_MSG_QUEUE)));''')]),
+
+ dict(name='nt-back-without-zero-test', prop='C06', rule='C06.nt', edits=[(B, 'if ( (!is_contained() || is_direct_call) && !handled && !is_completion_event<Event>::type::value)', 'if ( (!is_contained() || is_direct_call) && !(handled & HANDLED_TRUE) && !is_completion_event<Event>::type::value)')]),
+ dict(name='nt-back11-region0-id', prop='C06', rule='C06.nt', edits=[(B11, 'this->no_transition(evt,*this,this->m_states[i]);', 'this->no_transition(evt,*this,this->m_states[0]);')]),
+ dict(name='or-back-overwrite', prop='C06', rule='C06.or', edits=[(B, """                    *self_, region_id::value , self_->m_states[region_id::value], evt);
+                result_ = (HandledEnum)((int)result_ | (int)res);""", """                    *self_, region_id::value , self_->m_states[region_id::value], evt);
+                result_ = res;""")]),
+ dict(name='or-mp11-assign', prop='C06', rule='C06.or', edits=[(MP, 'result |= dispatch_table::dispatch(self(), region_id, event);', 'result = dispatch_table::dispatch(self(), region_id, event);')]),
+ dict(name='regions-back-wrong-state-arg', prop='C06', rule='C06.regions', edits=[(B, '*self_, region_id::value , self_->m_states[region_id::value], evt);', '*self_, region_id::value , self_->m_states[0], evt);')]),
+ dict(name='levels-mp11-eq-gate', prop='C01', rule='C01.levels', edits=[(MP, """if (!(result & handled_true_or_deferred))
+        {
+            result |= dispatch_table::internal_dispatch""", """if (result != process_result::HANDLED_DEFERRED)
+        {
+            result |= dispatch_table::internal_dispatch""")]),
 ]
